@@ -14,7 +14,8 @@ Alphabet(d) == CASE d \in Flagged -> {"Args", "Return", "args"}
                  [] d = "deprecated" -> {"r", "two words"}
                  [] d = "allow" -> {"Deprecated", "BrokenDocLink", "All", "Bogus"}
                  [] OTHER -> {"x", "two words", "Args"}
-Dirs == {"compress", "slicedFormat", "deprecated", "allow", "cs::attr"}
+\* (foreign directives whose last segment is spelled like one of the compiler's own are foreign all the same: kept verbatim)
+Dirs == {"compress", "slicedFormat", "deprecated", "allow", "cs::attr", "cs::deprecated", "rust::allow", "a::b::slicedFormat", "java::oneway", "cpp::compress"}
 OpShapes == {"operation", "operation_streamparam", "operation_ret", "operation_retstream", "operation_rettuple", "operation_rettuplestream"}
 Places(d) == IF d \in Flagged THEN OpShapes ELSE {"operation", "struct", "field", "enumerator"}
 \* deprecated takes one argument at most, the alphabets of the others make 3 arguments worth while
